@@ -141,6 +141,18 @@ type chunkReader struct {
 
 var errInjected = fmt.Errorf("injected I/O fault")
 
+// faultErr: the error value of an injected failure. A failure is a failure whatever its value: besides
+// an anonymous error the standard sentinels that real readers and writers fail with (a truncated gzip or
+// HTTP body fails with io.ErrUnexpectedEOF) - none of them is io.EOF, so none may be taken for the end
+// of the input. Chosen by the fault position, so that a re-execution injects the same value.
+func faultErr(at int, write bool) error {
+	vals := []error{errInjected, io.ErrUnexpectedEOF, io.ErrClosedPipe, io.ErrNoProgress}
+	if write {
+		vals[3] = io.ErrShortWrite
+	}
+	return vals[at%len(vals)]
+}
+
 // faultWriter accepts at most fault.At bytes in total, then fails (and keeps failing).
 type faultWriter struct {
 	buf   *bytes.Buffer
@@ -161,7 +173,7 @@ func (w *faultWriter) Write(p []byte) (int, error) {
 	}
 	w.buf.Write(p[:room])
 	w.fired = true
-	return room, errInjected
+	return room, faultErr(w.fault.At, true)
 }
 
 func (r *chunkReader) Read(p []byte) (int, error) {
@@ -184,7 +196,7 @@ func (r *chunkReader) Read(p []byte) (int, error) {
 	}
 	if r.fault != nil && r.pos >= limit && limit == r.fault.At {
 		r.fired = true
-		return 0, errInjected
+		return 0, faultErr(r.fault.At, false)
 	}
 	if n <= 0 {
 		return 0, io.EOF
@@ -193,7 +205,7 @@ func (r *chunkReader) Read(p []byte) (int, error) {
 	r.pos += n
 	if r.fault != nil && r.pos == r.fault.At && r.fault.With {
 		r.fired = true
-		return n, errInjected
+		return n, faultErr(r.fault.At, false)
 	}
 	if r.pos == len(r.data) && r.eofWith && r.fault == nil {
 		return n, io.EOF
